@@ -581,7 +581,7 @@ if __name__ == '__main__':
         'C09', sys.argv,
         gen_scripts=['gen_c09.py'], modules=['Alpaqa.Props.C09'], driver='drv_c09',
         extra_sources=['Alpaqa/Model/C09.lean', 'Alpaqa/Model/C09Base.lean', 'Alpaqa/Gen/C09.lean',
-                       'Alpaqa/Proofs/C09Vec.lean', 'Alpaqa/Proofs/C09Ring.lean',
+                       'Alpaqa/Proofs/C09Vec.lean', 'Alpaqa/Proofs/C09Ring.lean', 'Alpaqa/Proofs/C09Masked.lean',
                        'Alpaqa/Proofs/Basic.lean', 'Alpaqa/Model/Vec.lean', 'Alpaqa/Model/Scalar.lean'],
         harness_name='c09',
         harness_sources=[os.path.join(C.VERIF, 'harness', 'c09.cpp')]
@@ -597,7 +597,9 @@ if __name__ == '__main__':
             'reset / resize / scale_y) tied by bit-exact op-sequence correspondence on the explored '
             'sequences only',
             'theorems are over ordered fields with vectors as lists of a common length (real-number '
-            'semantics); IEEE rounding not modelled; std::pow is an uninterpreted function',
+            'semantics); IEEE rounding not modelled; std::pow is an uninterpreted function; the NaN '
+            'marker apply_masked keeps in α(i) is modelled as a skip flag, the masked theorem assumes a '
+            'carrier without NaN',
         ],
         assumptions=['Eigen dot / squaredNorm are left folds under -O1 -ffp-contract=off '
                      '-DEIGEN_DONT_VECTORIZE; vectors passed to the accelerator have the size it was '
